@@ -23,7 +23,7 @@ ASSUMPTIONS = [
     "known finding nsmap-member-order-only: a reloaded child whose map equals its parent's adopts the parent's key order; accepted only "
     "when both texts parse to equal objects and every difference is the member order of an 'nsmap' object",
 ]
-REQUIRED = ["saved_again_after_in_place_edits", "aliasing_checks", "trees_with_clark_extras_key", "roundtrips", "legacy_roundtrips", "upgrades", "trees_with_tail", "trees_with_extras", "trees_with_prefix", "trees_with_nested_nsmap",
+REQUIRED = ["loads_after_in_place_edit_of_an_earlier_load", "saved_again_after_in_place_edits", "aliasing_checks", "trees_with_clark_extras_key", "roundtrips", "legacy_roundtrips", "upgrades", "trees_with_tail", "trees_with_extras", "trees_with_prefix", "trees_with_nested_nsmap",
             "text_identical"]
 EXHAUSTIVE = {"quick": False, "thorough": False}
 
@@ -174,6 +174,28 @@ def judge(ctx, t, origin, history=None):
                     break
                 seen[id(o)] = (n, label)
     ctx.count("aliasing_checks")
+    # ... nor with anything a LATER load hands out: every dictionary of the first reload is written into in place, then the same text
+    # is loaded once more
+    marked = set()
+    for n in snapshot.walk(t2):
+        for o in (n.attributes, n.extras, n.nsmap):
+            if id(o) not in marked:
+                marked.add(id(o))
+                for k in list(o):
+                    if isinstance(o[k], str):
+                        o[k] = o[k] + "~verif"
+                o["verif-written-after-load"] = "x"
+    try:
+        t4 = metapype_io.from_json(text)
+        v4 = snapshot.value(t4, with_id=True)
+        ctx.evaluated()
+        ctx.count("loads_after_in_place_edit_of_an_earlier_load")
+        if v4 != v0:
+            ctx.violation("later-load-sees-edits-of-an-earlier-load", f"the same text loaded again after the first reload's dictionaries were edited in "
+                                                                     f"place: {snapshot.first_value_difference(v0, v4)}", wit())
+        emlkit.discard(t4)
+    except Exception as e:
+        ctx.violation(f"crash:{type(e).__name__}@{emlkit.raise_site(e)}|second-load", f"loading the same text again raised {e!r}", wit())
     for a, b, label in ((text, text2, "compact"), (text_i, text3, "indent=2")):
         if a == b:
             ctx.count("text_identical")
